@@ -1730,6 +1730,865 @@ Lemma failed_write_instance :
   holds s = true /\ sa s = texts 1 4 /\ gb s = map Some (texts 1 4) /\ nin (wb s) = 7 /\ nout (wa s) = 7.
 Proof. vm_compute. repeat split. Qed.
 
+(* ------------------------------------------------------------------ both directions at once *)
+
+(* the replay loop, also while the servicing end is itself waiting for a resend (state 12, any watermark) *)
+Lemma replay_apps_g : forall s0, (s0 = 10 \/ s0 = 12) -> forall k s i gfe ni no mr lt so si rows ins rest,
+  gfe <= s -> 0 < s -> s + Z.of_nat k <= I64MAX ->
+  replay_loop cfgA (rows_app s i k ++ rest) s gfe (W s0 1 ni no mr lt true so si rows ins)
+  = prepend (map Wire (frames_pd s i k))
+      (replay_loop cfgA rest (s + Z.of_nat k) gfe (W s0 1 ni no mr lt true so si rows ins)).
+Proof.
+  intros s0 Hs. induction k as [|k IH]; intros * G B1 B2.
+  - cbn. rewrite prepend_nil. replace (s + 0) with s by lia. reflexivity.
+  - unfold rows_app, frames_pd. cbn [gen app map].
+    fold (rows_app (s + 1) (i + 1) k). fold (frames_pd (s + 1) (i + 1) k).
+    remember (rows_app (s + 1) (i + 1) k ++ rest) as tl eqn:Etl.
+    specialize (IH (s + 1) (i + 1) gfe ni no mr lt so si rows ins rest ltac:(lia) ltac:(lia) ltac:(lia)).
+    replace (s + 1 + Z.of_nat k) with (s + Z.of_nat (S k)) in IH by lia.
+    unfold W in *.
+    destruct Hs; subst s0.
+    + timeout 100 (ev_with idtac). subst tl.
+      lazymatch type of IH with
+      | _ = ?rhs =>
+          match goal with
+          | |- context [replay_loop ?c ?l ?a ?g ?w] =>
+              replace (replay_loop c l a g w) with rhs by (symmetry; exact IH)
+          end
+      end.
+      destruct (replay_loop cfgA rest (s + Z.of_nat (S k)) gfe _) as [v w e]. reflexivity.
+    + timeout 100 (ev_with idtac). subst tl.
+      lazymatch type of IH with
+      | _ = ?rhs =>
+          match goal with
+          | |- context [replay_loop ?c ?l ?a ?g ?w] =>
+              replace (replay_loop c l a g w) with rhs by (symmetry; exact IH)
+          end
+      end.
+      destruct (replay_loop cfgA rest (s + Z.of_nat (S k)) gfe _) as [v w e]. reflexivity.
+Qed.
+
+(* recover_messages(OUTBOUND, b, maxsize) on  pre ++ (k rows from b) ++ (a sorted suffix above them) *)
+Lemma recover_range_suf : forall (g : Z -> Z -> msg) pre b i k suf M,
+  keys_lt b pre -> incr suf -> b + Z.of_nat k <= M ->
+  Forall (fun r : Z * msg => b + Z.of_nat k <= fst r <= M) suf ->
+  sort_rows (filter (fun r : Z * msg => (b <=? fst r) && (fst r <=? M))
+                    (pre ++ gen (fun s i => (s, g s i)) b i k ++ suf))
+  = gen (fun s i => (s, g s i)) b i k ++ suf.
+Proof.
+  intros * K I KM F. rewrite !filter_app.
+  rewrite (filter_false _ _ pre).
+  2:{ eapply Forall_impl; [|exact K]. cbn. intros [a x] Ha. cbn in *.
+      replace (b <=? a) with false by (symmetry; apply Z.leb_gt; lia). reflexivity. }
+  rewrite (filter_true _ _ (gen _ b i k)).
+  2:{ apply gen_Forall. intros q Hq. cbn.
+      replace (b <=? b + Z.of_nat q) with true by (symmetry; apply Z.leb_le; lia).
+      replace (b + Z.of_nat q <=? M) with true by (symmetry; apply Z.leb_le; lia). reflexivity. }
+  rewrite (filter_true _ _ suf).
+  2:{ eapply Forall_impl; [|exact F]. cbn. intros [a x] Ha. cbn in *.
+      replace (b <=? a) with true by (symmetry; apply Z.leb_le; lia).
+      replace (a <=? M) with true by (symmetry; apply Z.leb_le; lia). reflexivity. }
+  cbn [app]. apply sort_rows_incr. apply incr_gen_app; [exact I|].
+  intros r Hr. destruct suf as [|r0 suf]; [discriminate|]. cbn in Hr. injection Hr as <-.
+  inversion F; subst. lia.
+Qed.
+
+(* --- A, itself waiting for a resend (state 12), is asked to resend: ResendRequest(b, 0) numbered above its
+       expected number; k journaled application messages b .. L-1, then its Logon L and its own ResendRequest L+1.
+       Nothing is counted (the request is above the expected number), nothing changes in A; the replies are written *)
+Lemma recv_rr_awaiting : forall ni s mr lt si so pre ins b b2 i k L,
+  keys_lt b pre -> 0 < ni < s -> s <= I64MAX -> 0 < mr -> 0 < b -> L = b + Z.of_nat k -> L + 2 < I64MAX ->
+  process_message cfgA (recv_of cfgA (wrr cfgB s b)) NOW0
+    (W 12 1 ni (L + 2) mr lt true so si
+       (pre ++ rows_app b i k ++ [(L, wlogon cfgA L); (L + 1, wrr cfgA (L + 1) b2)]) ins)
+  = mkR (inl tt)
+        (W 12 1 ni (L + 2) mr lt true so si
+           (pre ++ rows_app b i k ++ [(L, wlogon cfgA L); (L + 1, wrr cfgA (L + 1) b2)]) ins)
+        (map Wire (frames_pd b i k) ++ [Wire (wgf cfgA L (L + 2))]).
+Proof.
+  intros * K2 B1 B2 B3 B4 EL B5. unfold W, process_message, validate_integrity.
+  timeout 100 (ev_with idtac).
+  match goal with |- context [sort_rows (filter ?f ?l)] =>
+    replace (sort_rows (filter f l)) with (rows_app b i k ++ [(L, wlogon cfgA L); (L + 1, wrr cfgA (L + 1) b2)])
+      by (symmetry; apply recover_range_suf;
+          [exact K2 | cbn; lia | lia | repeat constructor; cbn [fst]; lia]) end.
+  match goal with |- context [replay_loop ?c ?l ?a ?g ?w] =>
+    replace (replay_loop c l a g w)
+      with (prepend (map Wire (frames_pd b i k))
+              (replay_loop cfgA [(L, wlogon cfgA L); (L + 1, wrr cfgA (L + 1) b2)] (b + Z.of_nat k) b w))
+      by (symmetry; apply (replay_apps_g 12); [right; reflexivity | lia | lia | unfold I64MAX; lia]) end.
+  timeout 100 (ev_with idtac).
+  subst L. fin.
+Qed.
+
+(* mirror images (cfgA <-> cfgB, role 1 <-> 2), same scripts *)
+
+Lemma replay_apps_g_m : forall s0, (s0 = 10 \/ s0 = 12) -> forall k s i gfe ni no mr lt so si rows ins rest,
+  gfe <= s -> 0 < s -> s + Z.of_nat k <= I64MAX ->
+  replay_loop cfgB (rows_app_m s i k ++ rest) s gfe (W s0 2 ni no mr lt true so si rows ins)
+  = prepend (map Wire (frames_pd_m s i k))
+      (replay_loop cfgB rest (s + Z.of_nat k) gfe (W s0 2 ni no mr lt true so si rows ins)).
+Proof.
+  intros s0 Hs. induction k as [|k IH]; intros * G B1 B2.
+  - cbn. rewrite prepend_nil. replace (s + 0) with s by lia. reflexivity.
+  - unfold rows_app_m, frames_pd_m. cbn [gen app map].
+    fold (rows_app_m (s + 1) (i + 1) k). fold (frames_pd_m (s + 1) (i + 1) k).
+    remember (rows_app_m (s + 1) (i + 1) k ++ rest) as tl eqn:Etl.
+    specialize (IH (s + 1) (i + 1) gfe ni no mr lt so si rows ins rest ltac:(lia) ltac:(lia) ltac:(lia)).
+    replace (s + 1 + Z.of_nat k) with (s + Z.of_nat (S k)) in IH by lia.
+    unfold W in *.
+    destruct Hs; subst s0.
+    + timeout 100 (ev_with idtac). subst tl.
+      lazymatch type of IH with
+      | _ = ?rhs =>
+          match goal with
+          | |- context [replay_loop ?c ?l ?a ?g ?w] =>
+              replace (replay_loop c l a g w) with rhs by (symmetry; exact IH)
+          end
+      end.
+      destruct (replay_loop cfgB rest (s + Z.of_nat (S k)) gfe _) as [v w e]. reflexivity.
+    + timeout 100 (ev_with idtac). subst tl.
+      lazymatch type of IH with
+      | _ = ?rhs =>
+          match goal with
+          | |- context [replay_loop ?c ?l ?a ?g ?w] =>
+              replace (replay_loop c l a g w) with rhs by (symmetry; exact IH)
+          end
+      end.
+      destruct (replay_loop cfgB rest (s + Z.of_nat (S k)) gfe _) as [v w e]. reflexivity.
+Qed.
+
+Lemma recv_rr_awaiting_m : forall ni s mr lt si so pre ins b b2 i k L,
+  keys_lt b pre -> 0 < ni < s -> s <= I64MAX -> 0 < mr -> 0 < b -> L = b + Z.of_nat k -> L + 2 < I64MAX ->
+  process_message cfgB (recv_of cfgB (wrr cfgA s b)) NOW0
+    (W 12 2 ni (L + 2) mr lt true so si
+       (pre ++ rows_app_m b i k ++ [(L, wlogon cfgB L); (L + 1, wrr cfgB (L + 1) b2)]) ins)
+  = mkR (inl tt)
+        (W 12 2 ni (L + 2) mr lt true so si
+           (pre ++ rows_app_m b i k ++ [(L, wlogon cfgB L); (L + 1, wrr cfgB (L + 1) b2)]) ins)
+        (map Wire (frames_pd_m b i k) ++ [Wire (wgf cfgB L (L + 2))]).
+Proof.
+  intros * K2 B1 B2 B3 B4 EL B5. unfold W, process_message, validate_integrity.
+  timeout 100 (ev_with idtac).
+  match goal with |- context [sort_rows (filter ?f ?l)] =>
+    replace (sort_rows (filter f l)) with (rows_app_m b i k ++ [(L, wlogon cfgB L); (L + 1, wrr cfgB (L + 1) b2)])
+      by (symmetry; apply recover_range_suf;
+          [exact K2 | cbn; lia | lia | repeat constructor; cbn [fst]; lia]) end.
+  match goal with |- context [replay_loop ?c ?l ?a ?g ?w] =>
+    replace (replay_loop c l a g w)
+      with (prepend (map Wire (frames_pd_m b i k))
+              (replay_loop cfgB [(L, wlogon cfgB L); (L + 1, wrr cfgB (L + 1) b2)] (b + Z.of_nat k) b w))
+      by (symmetry; apply (replay_apps_g_m 12); [right; reflexivity | lia | lia | unfold I64MAX; lia]) end.
+  timeout 100 (ev_with idtac).
+  subst L. fin.
+Qed.
+
+Lemma recv_gf_awaiting_gen_m : forall ni e mr lt no so si rows ins,
+  all_lt ni ins -> keys_lt no rows -> 0 < ni < e -> 0 < mr <= e - 1 -> e <= I64MAX -> 0 < no <= I64MAX ->
+  so = no - 1 -> si = ni - 1 ->
+  process_message cfgA (recv_of cfgA (wgf cfgB ni e)) NOW0 (W 12 1 ni no mr lt true so si rows ins)
+  = mkR (inl tt) (W 17 1 e no 0 NOW0 true so ni rows (ins ++ [ni])) [State 17].
+Proof.
+  intros * K1 K2 B1 B2 B3 B4 -> ->. unfold W, process_message, validate_integrity.
+  pose proof (existsb_lt _ _ K1) as HK1.
+  timeout 100 (ev_with ltac:(rewrite ?(filter_ins_lt _ _ K1) by lia; rewrite ?(filter_rows_lt _ _ K2) by lia; rewrite ?HK1)).
+  fin.
+Qed.
+
+(* the network just after a reconnect + Logon of A, both directions in general position: B has not seen A's
+   application messages xb .. xb+ka-1 nor A's Logon LA; A has not seen B's xa .. xa+kb-1 *)
+Definition net_rb (xa xb ia ib : Z) (ka kb : nat) (preA preB : list (Z * msg)) (insA insB : list Z)
+                  (GA GB : list (option str)) (SA SB : list str) (id : Z) : net :=
+  let LA := xb + Z.of_nat ka in
+  let LB := xa + Z.of_nat kb in
+  mkNet (W 7 1 xa (LA + 1) 0 0 true LA (xa - 1) (preA ++ rows_app xb ia ka ++ [(LA, wlogon cfgA LA)]) insA)
+        (W 6 2 xb LB 0 0 true (LB - 1) (xb - 1) (preB ++ rows_app_m xa ib kb) insB)
+        [wlogon cfgA LA] [] GA GB SA SB id.
+
+Definition settled_both (s : net) (GA GB : list (option str)) (SA SB : list str) : Prop :=
+  quiescent s = true
+  /\ st (wa s) = ST_ACTIVE /\ st (wb s) = ST_ACTIVE
+  /\ nin (wa s) = nout (wb s) /\ nin (wb s) = nout (wa s)
+  /\ ga s = GA /\ gb s = GB /\ sa s = SA /\ sb s = SB.
+
+(* both ends miss something: two ResendRequests cross *)
+Lemma recovery_both_SS : forall xa xb ia ib ka kb preA preB insA insB GA GB SA SB id f,
+  keys_lt xb preA -> keys_lt xa preB -> all_lt xa insA -> all_lt xb insB ->
+  0 < xa -> 0 < xb ->
+  xb + Z.of_nat (S ka) + 3 <= I64MAX -> xa + Z.of_nat (S kb) + 3 <= I64MAX ->
+  settled_both (drain (4 + (S ka + (1 + (S kb + S f))))
+                      (net_rb xa xb ia ib (S ka) (S kb) preA preB insA insB GA GB SA SB id))
+               (GA ++ map Some (texts ib (S kb))) (GB ++ map Some (texts ia (S ka))) SA SB.
+Proof.
+  intros * K1 K2 K3 K4 B1 B2 B3 B4. unfold net_rb.
+  set (LA := xb + Z.of_nat (S ka)) in *. set (LB := xa + Z.of_nat (S kb)) in *.
+  assert (KB : keys_lt LB (preB ++ rows_app_m xa ib (S kb))).
+  { apply keys_lt_app; [eapply keys_lt_weaken; [exact K2|unfold LB; lia] | apply keys_lt_gen; unfold LB; lia]. }
+  assert (KA : keys_lt (LA + 1) (preA ++ rows_app xb ia (S ka) ++ [(LA, wlogon cfgA LA)])).
+  { repeat apply keys_lt_app; [eapply keys_lt_weaken; [exact K1|unfold LA; lia] | apply keys_lt_gen; unfold LA; lia
+                               | repeat constructor; cbn [fst]; lia]. }
+  cbn [Nat.add].
+  (* 1. B: Logon numbered above the expected number *)
+  rewrite drain_S. unfold pending at 1. nopen. unfold do_deliver. nopen.
+  rewrite (recv_logon_high xb LB (LB - 1) (xb - 1) _ insB LA);
+    [ | exact KB | unfold LA; lia | unfold I64MAX in *; unfold LA; lia | unfold I64MAX in *; unfold LB; lia | lia ].
+  nopen.
+  (* 2. A: Logon reply numbered above the expected number *)
+  rewrite drain_S. nopen. unfold do_deliver. nopen.
+  rewrite (recv_logon_reply_high xa (LA + 1) LA (xa - 1) _ insA LB);
+    [ | exact KA | unfold LB; lia | unfold I64MAX in *; unfold LB; lia | unfold I64MAX in *; unfold LA; lia | lia ].
+  nopen.
+  replace (LA + 1 + 1) with (LA + 2) by lia.
+  rewrite <- (app_assoc preB), <- (app_assoc preA), <- (app_assoc (rows_app xb ia (S ka))). cbn [app].
+  (* 3. B, waiting, is asked to resend: writes its retransmissions and the gap fill over its Logon + ResendRequest *)
+  rewrite drain_S. unfold pending at 1. nopen. unfold do_deliver. nopen.
+  rewrite (recv_rr_awaiting_m xb (LA + 1) LA 0 (xb - 1) (LB + 1) preB insB xa xb ib (S kb) LB);
+    [ | exact K2 | unfold LA; lia | unfold I64MAX in *; unfold LA; lia | unfold LA; lia | lia | reflexivity
+      | unfold I64MAX in *; unfold LB; lia ].
+  nopen. refold. rewrite wires_app, apps_app, wires_map_wire, apps_map_wire. nopen.
+  (* 4. A, waiting, is asked to resend *)
+  rewrite drain_S. nopen. unfold do_deliver. nopen.
+  rewrite (recv_rr_awaiting xa (LB + 1) LB 0 (xa - 1) (LA + 1) preA insA xb xa ia (S ka) LA);
+    [ | exact K1 | unfold LB; lia | unfold I64MAX in *; unfold LB; lia | unfold LB; lia | lia | reflexivity
+      | unfold I64MAX in *; unfold LA; lia ].
+  nopen. refold. rewrite wires_app, apps_app, wires_map_wire, apps_map_wire. nopen.
+  (* 5. B: A's retransmissions, then the gap fill LA -> LA + 2 *)
+  change (S (ka + S (S (kb + S f)))) with (S ka + S (S (kb + S f)))%nat.
+  rewrite (drain_pd ka (S (S (kb + S f))) xb ia LA 0 (LB + 2) (LB + 1) (xb - 1));
+    [ | exact K4 | lia | unfold LA; lia | unfold I64MAX in *; unfold LA; lia | lia ].
+  rewrite drain_S. unfold pending at 1. nopen. unfold do_deliver. nopen.
+  replace (xb + Z.of_nat (S ka)) with LA by reflexivity.
+  rewrite (recv_gf_awaiting_gen LA (LA + 2) LA NOW0 (LB + 2) (LB + 1) (xb - 1 + Z.of_nat (S ka)));
+    [ | apply Forall_app; split; [eapply all_lt_weaken; [exact K4|unfold LA; lia] | apply all_lt_nums; unfold LA; lia]
+      | repeat apply keys_lt_app; [eapply keys_lt_weaken; [exact K2|unfold LB; lia] | apply keys_lt_gen; unfold LB; lia
+                                   | repeat constructor; cbn [fst]; lia]
+      | unfold LA; lia | unfold LA; lia | unfold I64MAX in *; unfold LA; lia | unfold I64MAX in *; unfold LB; lia
+      | lia | unfold LA; lia ].
+  nopen.
+  (* 6. A: B's retransmissions, then the gap fill LB -> LB + 2 *)
+  change (S (kb + S f)) with (S kb + S f)%nat.
+  rewrite ?app_nil_r.
+  rewrite (drain_pd_m kb (S f) xa ib LB 0 (LA + 2) (LA + 1) (xa - 1));
+    [ | exact K3 | lia | unfold LB; lia | unfold I64MAX in *; unfold LB; lia | lia ].
+  rewrite drain_S. nopen. unfold do_deliver. nopen.
+  replace (xa + Z.of_nat (S kb)) with LB by reflexivity.
+  rewrite (recv_gf_awaiting_gen_m LB (LB + 2) LB NOW0 (LA + 2) (LA + 1) (xa - 1 + Z.of_nat (S kb)));
+    [ | apply Forall_app; split; [eapply all_lt_weaken; [exact K3|unfold LB; lia] | apply all_lt_nums; unfold LB; lia]
+      | repeat apply keys_lt_app; [eapply keys_lt_weaken; [exact K1|unfold LA; lia] | apply keys_lt_gen; unfold LA; lia
+                                   | repeat constructor; cbn [fst]; lia]
+      | unfold LB; lia | unfold LB; lia | unfold I64MAX in *; unfold LB; lia | unfold I64MAX in *; unfold LA; lia
+      | lia | unfold LB; lia ].
+  nopen. rewrite drain_quiet; [ | reflexivity | reflexivity ].
+  unfold settled_both. cbn [wa wb ab ba ga gb sa sb nid]. rewrite ?app_nil_r.
+  repeat split; reflexivity.
+Qed.
+
+(* nothing is missing on either side *)
+Lemma recovery_both_00 : forall xa xb ia ib preA preB insA insB GA GB SA SB id f,
+  keys_lt xb preA -> keys_lt xa preB -> all_lt xa insA -> all_lt xb insB ->
+  0 < xa -> 0 < xb -> xb + 3 <= I64MAX -> xa + 3 <= I64MAX ->
+  settled_both (drain (S (S f)) (net_rb xa xb ia ib 0 0 preA preB insA insB GA GB SA SB id))
+               (GA ++ map Some (texts ib 0)) (GB ++ map Some (texts ia 0)) SA SB.
+Proof.
+  intros * K1 K2 K3 K4 B1 B2 B3 B4. unfold net_rb. change (Z.of_nat 0) with 0.
+  replace (xb + 0) with xb by lia. replace (xa + 0) with xa by lia.
+  unfold rows_app, rows_app_m. cbn [gen app]. rewrite !app_nil_r.
+  rewrite drain_S. unfold pending at 1. nopen. unfold do_deliver. nopen.
+  rewrite (recv_logon_exact xb xa (xa - 1) (xb - 1) preB insB);
+    [ | exact K4 | exact K2 | unfold I64MAX in *; lia | unfold I64MAX in *; lia | lia | lia ].
+  nopen.
+  rewrite drain_S. nopen. unfold do_deliver. nopen.
+  rewrite (recv_logon_reply xa (xb + 1) xb (xa - 1) _ insA);
+    [ | exact K3 | unfold I64MAX in *; lia | lia ].
+  nopen. rewrite drain_quiet; [ | reflexivity | reflexivity ].
+  unfold settled_both, texts. cbn [wa wb ab ba ga gb sa sb nid gen map]. rewrite ?app_nil_r.
+  repeat split; reflexivity.
+Qed.
+
+(* only B misses something *)
+Lemma recovery_both_S0 : forall xa xb ia ib ka preA preB insA insB GA GB SA SB id f,
+  keys_lt xb preA -> keys_lt xa preB -> all_lt xa insA -> all_lt xb insB ->
+  0 < xa -> 0 < xb -> xb + Z.of_nat (S ka) + 3 <= I64MAX -> xa + 3 <= I64MAX ->
+  settled_both (drain (3 + (S ka + S f)) (net_rb xa xb ia ib (S ka) 0 preA preB insA insB GA GB SA SB id))
+               (GA ++ map Some (texts ib 0)) (GB ++ map Some (texts ia (S ka))) SA SB.
+Proof.
+  intros * K1 K2 K3 K4 B1 B2 B3 B4. unfold net_rb. change (Z.of_nat 0) with 0.
+  replace (xa + 0) with xa by lia.
+  set (LA := xb + Z.of_nat (S ka)) in *.
+  unfold rows_app_m. cbn [gen]. rewrite (app_nil_r preB).
+  cbn [Nat.add].
+  rewrite drain_S. unfold pending at 1. nopen. unfold do_deliver. nopen.
+  rewrite (recv_logon_high xb xa (xa - 1) (xb - 1) preB insB LA);
+    [ | exact K2 | unfold LA; lia | unfold I64MAX in *; unfold LA; lia | unfold I64MAX in *; lia | lia ].
+  nopen.
+  rewrite drain_S. nopen. unfold do_deliver. nopen.
+  rewrite (recv_logon_reply xa (LA + 1) LA (xa - 1) _ insA);
+    [ | exact K3 | unfold I64MAX in *; lia | lia ].
+  nopen.
+  rewrite drain_S. nopen. unfold do_deliver. nopen.
+  rewrite (recv_resend_request (xa + 1) NOW0 xa preA (insA ++ [xa]) xb ia (S ka) LA);
+    [ | apply Forall_app; split; [eapply all_lt_weaken; [exact K3|lia] | repeat constructor; lia]
+      | exact K1 | unfold I64MAX in *; lia | lia | reflexivity | unfold I64MAX in *; unfold LA; lia | lia ].
+  nopen. refold. rewrite wires_app, apps_app, wires_map_wire, apps_map_wire. nopen.
+  change (S (ka + S f)) with (S ka + S f)%nat.
+  rewrite (drain_pd ka (S f) xb ia LA 0 (xa + 2) (xa + 1) (xb - 1));
+    [ | exact K4 | lia | unfold LA; lia | unfold I64MAX in *; unfold LA; lia | lia ].
+  rewrite drain_S. unfold pending at 1. nopen. unfold do_deliver. nopen.
+  replace (xb + Z.of_nat (S ka)) with LA by reflexivity.
+  rewrite (recv_gf_awaiting_gen LA (LA + 1) LA NOW0 (xa + 2) (xa + 1) (xb - 1 + Z.of_nat (S ka)));
+    [ | apply Forall_app; split; [eapply all_lt_weaken; [exact K4|unfold LA; lia] | apply all_lt_nums; unfold LA; lia]
+      | apply keys_lt_app; [eapply keys_lt_weaken; [exact K2|lia] | repeat constructor; cbn [fst]; lia]
+      | unfold LA; lia | unfold LA; lia | unfold I64MAX in *; unfold LA; lia | unfold I64MAX in *; lia
+      | lia | unfold LA; lia ].
+  nopen. rewrite drain_quiet; [ | reflexivity | reflexivity ].
+  unfold settled_both, texts. cbn [wa wb ab ba ga gb sa sb nid gen map]. rewrite ?app_nil_r.
+  repeat split; try reflexivity; unfold W; cbn [nin nout]; lia.
+Qed.
+
+(* only A misses something *)
+Lemma recovery_both_0S : forall xa xb ia ib kb preA preB insA insB GA GB SA SB id f,
+  keys_lt xb preA -> keys_lt xa preB -> all_lt xa insA -> all_lt xb insB ->
+  0 < xa -> 0 < xb -> xb + 3 <= I64MAX -> xa + Z.of_nat (S kb) + 3 <= I64MAX ->
+  settled_both (drain (3 + (S kb + S f)) (net_rb xa xb ia ib 0 (S kb) preA preB insA insB GA GB SA SB id))
+               (GA ++ map Some (texts ib (S kb))) (GB ++ map Some (texts ia 0)) SA SB.
+Proof.
+  intros * K1 K2 K3 K4 B1 B2 B3 B4. unfold net_rb. change (Z.of_nat 0) with 0.
+  replace (xb + 0) with xb by lia.
+  set (LB := xa + Z.of_nat (S kb)) in *.
+  unfold rows_app. cbn [gen app].
+  assert (KB : keys_lt LB (preB ++ rows_app_m xa ib (S kb))).
+  { apply keys_lt_app; [eapply keys_lt_weaken; [exact K2|unfold LB; lia] | apply keys_lt_gen; unfold LB; lia]. }
+  cbn [Nat.add].
+  rewrite drain_S. unfold pending at 1. nopen. unfold do_deliver. nopen.
+  rewrite (recv_logon_exact xb LB (LB - 1) (xb - 1) _ insB);
+    [ | exact K4 | exact KB | unfold I64MAX in *; lia | unfold I64MAX in *; unfold LB; lia | lia | lia ].
+  nopen.
+  rewrite drain_S. nopen. unfold do_deliver. nopen.
+  rewrite (recv_logon_reply_high xa (xb + 1) xb (xa - 1) _ insA LB);
+    [ | apply keys_lt_app; [eapply keys_lt_weaken; [exact K1|lia] | repeat constructor; cbn [fst]; lia]
+      | unfold LB; lia | unfold I64MAX in *; unfold LB; lia | unfold I64MAX in *; lia | lia ].
+  nopen.
+  rewrite drain_S. unfold pending at 1. nopen. unfold do_deliver. nopen.
+  rewrite <- (app_assoc preB).
+  rewrite (recv_resend_request_m (xb + 1) NOW0 xb preB (insB ++ [xb]) xa ib (S kb) LB);
+    [ | apply Forall_app; split; [eapply all_lt_weaken; [exact K4|lia] | repeat constructor; lia]
+      | exact K2 | unfold I64MAX in *; lia | lia | reflexivity | unfold I64MAX in *; unfold LB; lia | lia ].
+  nopen. refold. rewrite wires_app, apps_app, wires_map_wire, apps_map_wire. nopen.
+  change (S (kb + S f)) with (S kb + S f)%nat.
+  rewrite (drain_pd_m kb (S f) xa ib LB 0 (xb + 1 + 1) (xb + 1) (xa - 1));
+    [ | exact K3 | lia | unfold LB; lia | unfold I64MAX in *; unfold LB; lia | lia ].
+  rewrite drain_S. nopen. unfold do_deliver. nopen.
+  replace (xa + Z.of_nat (S kb)) with LB by reflexivity.
+  rewrite (recv_gf_awaiting_gen_m LB (LB + 1) LB NOW0 (xb + 1 + 1) (xb + 1) (xa - 1 + Z.of_nat (S kb)));
+    [ | apply Forall_app; split; [eapply all_lt_weaken; [exact K3|unfold LB; lia] | apply all_lt_nums; unfold LB; lia]
+      | repeat apply keys_lt_app; [eapply keys_lt_weaken; [exact K1|lia] | repeat constructor; cbn [fst]; lia
+                                   | repeat constructor; cbn [fst]; lia]
+      | unfold LB; lia | unfold LB; lia | unfold I64MAX in *; unfold LB; lia | unfold I64MAX in *; lia
+      | lia | unfold LB; lia ].
+  nopen. rewrite drain_quiet; [ | reflexivity | reflexivity ].
+  unfold settled_both, texts. cbn [wa wb ab ba ga gb sa sb nid gen map]. rewrite ?app_nil_r.
+  repeat split; try reflexivity; unfold W; cbn [nin nout]; lia.
+Qed.
+
+(* deliveries to A while ACTIVE, whatever is in flight towards B *)
+Lemma delivers_A2 : forall k s i noa soa si rowsa insa wbv abv rest gav gbv sav sbv id,
+  all_lt s insa -> 0 < s -> s + Z.of_nat k < I64MAX -> si = s - 1 ->
+  run (mkNet (W 17 1 s noa 0 NOW0 true soa si rowsa insa) wbv abv (frames_app_m s i k ++ rest) gav gbv sav sbv id)
+      (repeat (ADeliver SA) k)
+  = mkNet (W 17 1 (s + Z.of_nat k) noa 0 NOW0 true soa (si + Z.of_nat k) rowsa (insa ++ nums s k)) wbv
+          abv rest (gav ++ map Some (texts i k)) gbv sav sbv id.
+Proof.
+  induction k as [|k IH]; intros * K B1 B2 E.
+  - cbn. rewrite !app_nil_r. replace (s + 0) with s by lia. replace (si + 0) with si by lia. reflexivity.
+  - subst si. unfold frames_app_m. cbn [gen app repeat run fold_left]. fold (frames_app_m (s + 1) (i + 1) k).
+    match goal with |- fold_left ?f ?l ?x = _ => change (fold_left f l x) with (run x l) end.
+    unfold step, do_deliver. nopen.
+    rewrite (recv_app_active_m s noa NOW0 soa (s - 1) rowsa insa i K) by (unfold I64MAX in *; lia).
+    nopen. rewrite text_of_app, ?app_nil_r.
+    rewrite IH; [ | | lia | unfold I64MAX in *; lia | lia ].
+    + unfold nums, texts. cbn [gen map]. rewrite <- !app_assoc. cbn [app].
+      repeat (first [ reflexivity | lia | f_equal ]).
+    + apply Forall_app. split; [eapply all_lt_weaken; [exact K|lia]|]. repeat constructor. lia.
+Qed.
+
+(* first Logon exchange; A sends da + ka messages, then B sends db + kb; the first da of A's reach B, the first
+   db of B's reach A; then the link breaks *)
+Definition sched_before_both (da ka db kb : nat) : list action :=
+  [AReconnect; ADeliver SB; ADeliver SA] ++ repeat (ASend SA) (da + ka) ++ repeat (ASend SB) (db + kb)
+  ++ repeat (ADeliver SB) da ++ repeat (ADeliver SA) db.
+
+Definition net_before_both (da ka db kb : nat) : net :=
+  let N := Z.of_nat (da + ka) in
+  let M := Z.of_nat (db + kb) in
+  mkNet (W 17 1 (2 + Z.of_nat db) (2 + N) 0 NOW0 true (1 + N) (1 + Z.of_nat db) ([LA1] ++ rows_app 2 1 (da + ka)) ([1] ++ nums 2 db))
+        (W 17 2 (2 + Z.of_nat da) (2 + M) 0 NOW0 true (1 + M) (1 + Z.of_nat da) ([LB1] ++ rows_app_m 2 (1 + N) (db + kb)) ([1] ++ nums 2 da))
+        (frames_app (2 + Z.of_nat da) (1 + Z.of_nat da) ka)
+        (frames_app_m (2 + Z.of_nat db) (1 + N + Z.of_nat db) kb)
+        ([] ++ map Some (texts (1 + N) db)) ([] ++ map Some (texts 1 da))
+        ([] ++ texts 1 (da + ka)) ([] ++ texts (1 + N) (db + kb)) (1 + N + M).
+
+Lemma at_before_both : forall da ka db kb,
+  Z.of_nat (da + ka) + 3 <= I64MAX -> Z.of_nat (db + kb) + 3 <= I64MAX ->
+  run net0 (sched_before_both da ka db kb) = net_before_both da ka db kb.
+Proof.
+  intros * B1 B2. unfold sched_before_both. rewrite run_app, first_logon. unfold net_up.
+  rewrite run_app.
+  rewrite (sends_A (da + ka) 2 2 NOW0 1 1 [LA1] [1]); [ | repeat constructor; cbn; lia | lia | lia | lia ].
+  rewrite run_app.
+  rewrite (sends_B (db + kb) 2 2 NOW0 1 1 [LB1] [1]); [ | repeat constructor; cbn; lia | lia | lia | lia ].
+  rewrite run_app.
+  unfold frames_app at 1. rewrite gen_app. fold (frames_app 2 1 da). cbn [app].
+  rewrite (delivers_B da 2 1); [ | repeat constructor; lia | lia | unfold I64MAX in *; lia | lia ].
+  unfold frames_app_m at 1. rewrite gen_app. fold (frames_app_m 2 (1 + Z.of_nat (da + ka)) db). cbn [app].
+  rewrite (delivers_A2 db 2 (1 + Z.of_nat (da + ka))); [ | repeat constructor; lia | lia | unfold I64MAX in *; lia | lia ].
+  unfold net_before_both. cbn [app].
+  repeat (first [ reflexivity | lia | f_equal ]).
+Qed.
+
+Definition net_broken_both (da ka db kb : nat) : net :=
+  let N := Z.of_nat (da + ka) in
+  let M := Z.of_nat (db + kb) in
+  mkNet (W 3 1 (2 + Z.of_nat db) (2 + N) 0 0 false (1 + N) (1 + Z.of_nat db) ([LA1] ++ rows_app 2 1 (da + ka)) ([1] ++ nums 2 db))
+        (W 3 2 (2 + Z.of_nat da) (2 + M) 0 0 false (1 + M) (1 + Z.of_nat da) ([LB1] ++ rows_app_m 2 (1 + N) (db + kb)) ([1] ++ nums 2 da))
+        [] []
+        ([] ++ map Some (texts (1 + N) db)) ([] ++ map Some (texts 1 da))
+        ([] ++ texts 1 (da + ka)) ([] ++ texts (1 + N) (db + kb)) (1 + N + M).
+
+Lemma at_break_both : forall da ka db kb,
+  Z.of_nat (da + ka) + 3 <= I64MAX -> Z.of_nat (db + kb) + 3 <= I64MAX ->
+  run net0 (sched_before_both da ka db kb ++ [ABreak]) = net_broken_both da ka db kb.
+Proof.
+  intros * B1 B2. rewrite run_app, at_before_both by assumption. unfold net_before_both.
+  cbn [run fold_left]. unfold step, do_break. nopen.
+  rewrite !disconnect_active. nopen. rewrite ?app_nil_r. reflexivity.
+Qed.
+
+Lemma at_reconnect_both : forall da ka db kb,
+  Z.of_nat (da + ka) + 3 <= I64MAX -> Z.of_nat (db + kb) + 3 <= I64MAX ->
+  do_reconnect (net_broken_both da ka db kb)
+  = net_rb (2 + Z.of_nat db) (2 + Z.of_nat da) (1 + Z.of_nat da) (1 + Z.of_nat (da + ka) + Z.of_nat db) ka kb
+           (LA1 :: rows_app 2 1 da) (LB1 :: rows_app_m 2 (1 + Z.of_nat (da + ka)) db)
+           (1 :: nums 2 db) (1 :: nums 2 da)
+           (map Some (texts (1 + Z.of_nat (da + ka)) db)) (map Some (texts 1 da))
+           (texts 1 (da + ka)) (texts (1 + Z.of_nat (da + ka)) (db + kb))
+           (1 + Z.of_nat (da + ka) + Z.of_nat (db + kb)).
+Proof.
+  intros * B1 B2. unfold net_broken_both, do_reconnect. nopen.
+  set (N := Z.of_nat (da + ka)) in *. set (M := Z.of_nat (db + kb)) in *.
+  change (set_wr true (set_st ST_NCE (W 3 1 (2 + Z.of_nat db) (2 + N) 0 0 false (1 + N) (1 + Z.of_nat db) (LA1 :: rows_app 2 1 (da + ka)) (1 :: nums 2 db))))
+    with (W 6 1 (2 + Z.of_nat db) (2 + N) 0 0 true (1 + N) (1 + Z.of_nat db) (LA1 :: rows_app 2 1 (da + ka)) (1 :: nums 2 db)).
+  change (set_wr true (set_st ST_NCE (W 3 2 (2 + Z.of_nat da) (2 + M) 0 0 false (1 + M) (1 + Z.of_nat da) (LB1 :: rows_app_m 2 (1 + N) (db + kb)) (1 :: nums 2 da))))
+    with (W 6 2 (2 + Z.of_nat da) (2 + M) 0 0 true (1 + M) (1 + Z.of_nat da) (LB1 :: rows_app_m 2 (1 + N) (db + kb)) (1 :: nums 2 da)).
+  replace (W 6 1 (2 + Z.of_nat db) (2 + N) 0 0 true (1 + N) (1 + Z.of_nat db) (LA1 :: rows_app 2 1 (da + ka)) (1 :: nums 2 db))
+    with (W 6 1 (2 + Z.of_nat db) (2 + N) 0 0 true (2 + N - 1) (1 + Z.of_nat db) (LA1 :: rows_app 2 1 (da + ka)) (1 :: nums 2 db))
+    by (f_equal; lia).
+  rewrite send_logon_step; [ | | unfold I64MAX in *; lia ].
+  2:{ constructor; [unfold LA1; cbn [fst]; lia | apply keys_lt_gen; unfold N; lia]. }
+  nopen. unfold net_rb.
+  replace (rows_app 2 1 (da + ka)) with (rows_app 2 1 da ++ rows_app (2 + Z.of_nat da) (1 + Z.of_nat da) ka)
+    by (unfold rows_app; rewrite gen_app; reflexivity).
+  replace (rows_app_m 2 (1 + N) (db + kb)) with (rows_app_m 2 (1 + N) db ++ rows_app_m (2 + Z.of_nat db) (1 + N + Z.of_nat db) kb)
+    by (unfold rows_app_m; rewrite gen_app; reflexivity).
+  rewrite <- ?app_assoc. cbn [app].
+  replace (2 + Z.of_nat da + Z.of_nat ka) with (2 + N) by (unfold N; lia).
+  replace (2 + Z.of_nat db + Z.of_nat kb) with (2 + M) by (unfold M; lia).
+  rewrite ?app_nil_r. repeat (first [ reflexivity | lia | f_equal ]).
+Qed.
+
+(* what the property asks when both applications have sent *)
+Definition recovered_both (s : net) (n m : nat) : Prop :=
+  quiescent s = true
+  /\ st (wa s) = ST_ACTIVE /\ st (wb s) = ST_ACTIVE
+  /\ nin (wa s) = nout (wb s) /\ nin (wb s) = nout (wa s)
+  /\ sa s = texts 1 n /\ gb s = map Some (texts 1 n)
+  /\ sb s = texts (1 + Z.of_nat n) m /\ ga s = map Some (texts (1 + Z.of_nat n) m)
+  /\ holds s = true.
+
+Lemma texts_split_at : forall i a b, texts i (a + b) = texts i a ++ texts (i + Z.of_nat a) b.
+Proof. intros. unfold texts. rewrite gen_app. reflexivity. Qed.
+
+Theorem single_break_both : forall da ka db kb fuel,
+  Z.of_nat (da + ka) + 5 <= I64MAX -> Z.of_nat (db + kb) + 5 <= I64MAX -> (ka + kb + 6 <= fuel)%nat ->
+  recovered_both (settle fuel (run net0 (sched_before_both da ka db kb ++ [ABreak]))) (da + ka) (db + kb).
+Proof.
+  intros * B1 B2 F.
+  rewrite at_break_both by lia. unfold settle.
+  rewrite (drain_quiet fuel (net_broken_both da ka db kb)) by reflexivity.
+  replace (link_down (net_broken_both da ka db kb)) with true by reflexivity.
+  rewrite at_reconnect_both by lia.
+  set (N := Z.of_nat (da + ka)) in *. set (M := Z.of_nat (db + kb)) in *.
+  assert (P1 : keys_lt (2 + Z.of_nat da) (LA1 :: rows_app 2 1 da))
+    by (constructor; [unfold LA1; cbn [fst]; lia | apply keys_lt_gen; lia]).
+  assert (P2 : keys_lt (2 + Z.of_nat db) (LB1 :: rows_app_m 2 (1 + N) db))
+    by (constructor; [unfold LB1; cbn [fst]; lia | apply keys_lt_gen; lia]).
+  assert (P3 : all_lt (2 + Z.of_nat db) (1 :: nums 2 db)) by (constructor; [lia | apply all_lt_nums; lia]).
+  assert (P4 : all_lt (2 + Z.of_nat da) (1 :: nums 2 da)) by (constructor; [lia | apply all_lt_nums; lia]).
+  assert (H : settled_both
+                (drain fuel (net_rb (2 + Z.of_nat db) (2 + Z.of_nat da) (1 + Z.of_nat da) (1 + N + Z.of_nat db) ka kb
+                               (LA1 :: rows_app 2 1 da) (LB1 :: rows_app_m 2 (1 + N) db) (1 :: nums 2 db) (1 :: nums 2 da)
+                               (map Some (texts (1 + N) db)) (map Some (texts 1 da))
+                               (texts 1 (da + ka)) (texts (1 + N) (db + kb)) (1 + N + M)))
+                (map Some (texts (1 + N) db) ++ map Some (texts (1 + N + Z.of_nat db) kb))
+                (map Some (texts 1 da) ++ map Some (texts (1 + Z.of_nat da) ka))
+                (texts 1 (da + ka)) (texts (1 + N) (db + kb))).
+  { destruct ka as [|ka], kb as [|kb].
+    - destruct fuel as [|[|f]]; [lia|lia|].
+      apply recovery_both_00; try assumption; unfold I64MAX in *; unfold N, M in *; lia.
+    - replace fuel with (3 + (S kb + S (fuel - (S kb + 4))))%nat by lia.
+      apply recovery_both_0S; try assumption; unfold I64MAX in *; unfold N, M in *; lia.
+    - replace fuel with (3 + (S ka + S (fuel - (S ka + 4))))%nat by lia.
+      apply recovery_both_S0; try assumption; unfold I64MAX in *; unfold N, M in *; lia.
+    - replace fuel with (4 + (S ka + (1 + (S kb + S (fuel - (S ka + S kb + 6))))))%nat by lia.
+      apply recovery_both_SS; try assumption; unfold I64MAX in *; unfold N, M in *; lia. }
+  destruct H as [Q [A1 [A2 [N1 [N2 [G1 [G2 [S1 S2]]]]]]]].
+  rewrite <- map_app, <- texts_split_at in G1, G2.
+  unfold recovered_both. fold N. repeat split; try assumption.
+  apply holds_intro; try assumption; [rewrite G2, S1; reflexivity | rewrite G1, S2; reflexivity].
+Qed.
+
+(* cross-check by computation: A sends 3, B sends 2; two of A's and one of B's in flight at the break *)
+Lemma both_instance :
+  let s := settle 20 (run net0 (sched_before_both 1 2 1 1 ++ [ABreak])) in
+  holds s = true /\ gb s = map Some (texts 1 3) /\ ga s = map Some (texts 4 2)
+  /\ nin (wa s) = nout (wb s) /\ nin (wb s) = nout (wa s).
+Proof. vm_compute. repeat split. Qed.
+
+(* ------------------------------------------------------------------ a break during the FIRST Logon exchange *)
+
+Lemma drain_add : forall a f n, drain (a + f) n = drain f (drain a n).
+Proof.
+  induction a as [|a IH]; intros f n; [reflexivity|].
+  cbn [Nat.add]. rewrite !drain_S.
+  destruct (pending SB n) eqn:P1; [apply IH|].
+  destruct (pending SA n) eqn:P2; [apply IH|].
+  symmetry. apply drain_quiet; assumption.
+Qed.
+
+(* the two moments at which the first exchange can be cut: the initiator's Logon is in flight (i = 0), or the
+   acceptor has answered and its reply is in flight (i = 1); then the explicit repair after the reconnect *)
+Definition sched_logon_cut (i : nat) : list action :=
+  match i with
+  | O => [AReconnect; ABreak; AReconnect; ADeliver SB; ADeliver SA; ADeliver SA; ADeliver SB]
+  | _ => [AReconnect; ADeliver SB; ABreak; AReconnect; ADeliver SB; ADeliver SA; ADeliver SB; ADeliver SA]
+  end.
+
+Definition net_up_cut (i : nat) : net :=
+  match i with
+  | O => mkNet (W 17 1 3 3 0 NOW0 true 2 2 [(1, wlogon cfgA 1); (2, wlogon cfgA 2)] [1; 2])
+               (W 17 2 3 3 0 NOW0 true 2 1 [(1, wlogon cfgB 1); (2, wrr cfgB 2 1)] [1]) [] [] [] [] [] [] 1
+  | _ => mkNet (W 17 1 3 4 0 NOW0 true 3 1 [(1, wlogon cfgA 1); (2, wlogon cfgA 2); (3, wrr cfgA 3 1)] [1])
+               (W 17 2 4 3 0 NOW0 true 2 3 [(1, wlogon cfgB 1); (2, wlogon cfgB 2)] [1; 2; 3]) [] [] [] [] [] [] 1
+  end.
+
+Lemma logon_cut_repaired : forall i, run net0 (sched_logon_cut i) = net_up_cut i.
+Proof. intros [|i]; vm_compute; reflexivity. Qed.
+
+(* the stored inbound counter plays no role in accepting a message (after a gap fill it lags behind: D11) *)
+Lemma recv_app_active_any : forall ni no lt so si rows ins id,
+  all_lt ni ins -> 0 < ni < I64MAX ->
+  process_message cfgB (recv_of cfgB (wapp cfgA ni id)) NOW0 (W 17 2 ni no 0 lt true so si rows ins)
+  = mkR (inl tt) (W 17 2 (ni + 1) no 0 NOW0 true so ni rows (ins ++ [ni]))
+        [App (recv_of cfgB (wapp cfgA ni id))].
+Proof.
+  intros * K B. unfold W, process_message, validate_integrity.
+  pose proof (existsb_lt _ _ K) as HK. timeout 60 (ev_with ltac:(rewrite ?HK)). fin.
+Qed.
+
+Lemma delivers_B_any : forall k s i nob sob si rowsb insb wav rest bav gav gbv sav sbv id,
+  all_lt s insb -> 0 < s -> s + Z.of_nat (S k) < I64MAX ->
+  run (mkNet wav (W 17 2 s nob 0 NOW0 true sob si rowsb insb) (frames_app s i (S k) ++ rest) bav gav gbv sav sbv id)
+      (repeat (ADeliver SB) (S k))
+  = mkNet wav (W 17 2 (s + Z.of_nat (S k)) nob 0 NOW0 true sob (s + Z.of_nat k) rowsb (insb ++ nums s (S k)))
+          rest bav gav (gbv ++ map Some (texts i (S k))) sav sbv id.
+Proof.
+  intros * K B1 B2. unfold frames_app. cbn [gen app repeat run fold_left]. fold (frames_app (s + 1) (i + 1) k).
+  match goal with |- fold_left ?f ?l ?x = _ => change (fold_left f l x) with (run x l) end.
+  unfold step, do_deliver. nopen.
+  rewrite (recv_app_active_any s nob NOW0 sob si rowsb insb i K) by (unfold I64MAX in *; lia).
+  nopen. rewrite text_of_app, ?app_nil_r.
+  rewrite (delivers_B k (s + 1) (i + 1) nob sob s); [ | | lia | unfold I64MAX in *; lia | lia ].
+  - unfold nums, texts. cbn [gen map]. rewrite <- !app_assoc. cbn [app].
+    repeat (first [ reflexivity | lia | f_equal ]).
+  - apply Forall_app. split; [eapply all_lt_weaken; [exact K|lia]|]. repeat constructor. lia.
+Qed.
+
+(* After a first Logon exchange that was cut at either moment and repaired, the session works: A's application sends
+   n messages, all are delivered *)
+Theorem logon_cut : forall i n,
+  Z.of_nat n + 6 <= I64MAX ->
+  let s := run net0 (sched_logon_cut i ++ repeat (ASend SA) n ++ repeat (ADeliver SB) n) in
+  recovered s n.
+Proof.
+  intros i n B. cbv zeta. rewrite run_app, logon_cut_repaired, run_app.
+  destruct i as [|i]; unfold net_up_cut.
+  - rewrite (sends_A n 3 3 NOW0 2 2); [ | repeat constructor; cbn [fst]; lia | lia | unfold I64MAX in *; lia | lia ].
+    destruct n as [|n].
+    + cbn [repeat run fold_left]. unfold recovered. cbn [wa wb ab ba ga gb sa sb nid app].
+      repeat split; try reflexivity.
+    + cbn [app]. rewrite <- (app_nil_r (frames_app 3 1 (S n))).
+      rewrite (delivers_B_any n 3 1); [ | repeat constructor; lia | lia | unfold I64MAX in *; lia ].
+      unfold recovered. cbn [wa wb ab ba ga gb sa sb nid app].
+      repeat split; try reflexivity; try (unfold W; cbn [nin nout]; lia).
+      apply holds_intro; try reflexivity; try (unfold W; cbn [nin nout wa wb]; lia).
+  - rewrite (sends_A n 3 4 NOW0 3 1); [ | repeat constructor; cbn [fst]; lia | lia | unfold I64MAX in *; lia | lia ].
+    destruct n as [|n].
+    + cbn [repeat run fold_left]. unfold recovered. cbn [wa wb ab ba ga gb sa sb nid app].
+      repeat split; try reflexivity.
+    + cbn [app]. rewrite <- (app_nil_r (frames_app 4 1 (S n))).
+      rewrite (delivers_B_any n 4 1); [ | repeat constructor; lia | lia | unfold I64MAX in *; lia ].
+      unfold recovered. cbn [wa wb ab ba ga gb sa sb nid app].
+      repeat split; try reflexivity; try (unfold W; cbn [nin nout]; lia).
+      apply holds_intro; try reflexivity; try (unfold W; cbn [nin nout wa wb]; lia).
+Qed.
+
+(* the same repair through `settle` (drain; reconnect + Logon; drain) instead of explicit deliveries *)
+Definition cut_prefix (i : nat) : list action :=
+  match i with O => [AReconnect; ABreak] | _ => [AReconnect; ADeliver SB; ABreak] end.
+
+Lemma settle_cut : forall i f, settle (8 + f) (run net0 (cut_prefix i)) = net_up_cut i.
+Proof.
+  intros i f.
+  assert (E0 : forall x, pending SB x = false -> pending SA x = false -> drain (8 + f) x = x)
+    by (intros; apply drain_quiet; assumption).
+  assert (P : pending SB (run net0 (cut_prefix i)) = false /\ pending SA (run net0 (cut_prefix i)) = false
+              /\ link_down (run net0 (cut_prefix i)) = true
+              /\ drain 8 (do_reconnect (run net0 (cut_prefix i))) = net_up_cut i
+              /\ pending SB (net_up_cut i) = false /\ pending SA (net_up_cut i) = false).
+  { destruct i as [|i]; vm_compute; repeat split. }
+  destruct P as [P1 [P2 [P3 [P4 [P5 P6]]]]].
+  unfold settle. rewrite (E0 _ P1 P2), P3, drain_add, P4. apply drain_quiet; assumption.
+Qed.
+
+Lemma logon_cut_instance :
+  let s := run net0 (sched_logon_cut 1 ++ repeat (ASend SA) 2 ++ repeat (ADeliver SB) 2) in
+  holds s = true /\ gb s = map Some (texts 1 2) /\ nin (wb s) = 6 /\ nout (wa s) = 6 /\ nin (wa s) = 3 /\ nout (wb s) = 3.
+Proof. vm_compute. repeat split. Qed.
+
+(* ------------------------------------------------------------------ the same general position, with traffic of B
+   already delivered to A (ga, sb not empty): same scripts *)
+
+Definition net_recx (na nb b i : Z) (k m : nat) (pre rowsB : list (Z * msg)) (insA insB : list Z)
+                   (G : list (option str)) (SA : list str) (id : Z) (GA : list (option str)) (SB : list str) : net :=
+  let L := b + Z.of_nat k + Z.of_nat m in
+  mkNet (W 7 1 na (L + 1) 0 0 true L (na - 1) (pre ++ rows_app b i k ++ logons (b + Z.of_nat k) (S m)) insA)
+        (W 6 2 b nb 0 0 true (nb - 1) (b - 1) rowsB insB)
+        [wlogon cfgA L] [] GA G SA SB id.
+
+Definition net_recx_done (na nb b i : Z) (k m : nat) (pre rowsB : list (Z * msg)) (insA insB : list Z)
+                        (G : list (option str)) (SA : list str) (id : Z) (GA : list (option str)) (SB : list str) : net :=
+  let L := b + Z.of_nat k + Z.of_nat m in
+  mkNet (W 17 1 (na + 2) (L + 1) 0 NOW0 true L (na + 1) (pre ++ rows_app b i k ++ logons (b + Z.of_nat k) (S m))
+           (insA ++ [na; na + 1]))
+        (W 17 2 (L + 1) (nb + 2) 0 NOW0 true (nb + 1) (b + Z.of_nat k)
+           (rowsB ++ [(nb, wlogon cfgB nb); (nb + 1, wrr cfgB (nb + 1) b)])
+           (insB ++ nums b k ++ [b + Z.of_nat k]))
+        [] [] GA (G ++ map Some (texts i k)) SA SB id.
+
+Lemma recovery_genx : forall na nb b i k m pre rowsB insA insB G SA id GA SB f,
+  na = nb -> (0 < k + m)%nat ->
+  keys_lt b pre -> keys_lt nb rowsB -> all_lt na insA -> all_lt b insB ->
+  0 < na -> 0 < b -> b + Z.of_nat k + Z.of_nat m + 2 <= I64MAX -> nb + 3 <= I64MAX ->
+  drain (3 + (k + S f)) (net_recx na nb b i k m pre rowsB insA insB G SA id GA SB)
+  = net_recx_done na nb b i k m pre rowsB insA insB G SA id GA SB.
+Proof.
+  intros * -> KM K1 K2 K3 K4 B1 B2 B3 B4. unfold net_recx.
+  set (L := b + Z.of_nat k + Z.of_nat m) in *.
+  cbn [Nat.add].
+  (* B: Logon numbered above the expected number *)
+  rewrite drain_S. unfold pending at 1. nopen. unfold do_deliver. nopen.
+  rewrite (recv_logon_high b nb (nb - 1) (b - 1) rowsB insB L);
+    [ | exact K2 | unfold L; lia | unfold I64MAX in *; lia | unfold I64MAX in *; lia | lia ].
+  nopen.
+  (* A: Logon reply *)
+  rewrite drain_S. nopen. unfold do_deliver. nopen.
+  rewrite (recv_logon_reply nb (L + 1) L (nb - 1) _ insA);
+    [ | exact K3 | unfold I64MAX in *; lia | lia ].
+  nopen.
+  (* A: ResendRequest *)
+  rewrite drain_S. nopen. unfold do_deliver. nopen.
+  rewrite (recv_resend_request_gen (nb + 1) NOW0 nb pre (insA ++ [nb]) b i k m L);
+    [ | apply Forall_app; split; [eapply all_lt_weaken; [exact K3|lia] | repeat constructor; lia]
+      | exact K1 | unfold I64MAX in *; lia | lia | reflexivity | unfold I64MAX in *; lia | lia ].
+  nopen. refold. rewrite wires_app, apps_app, wires_map_wire, apps_map_wire. nopen.
+  assert (KB : keys_lt (nb + 2) (rowsB ++ [(nb, wlogon cfgB nb); (nb + 1, wrr cfgB (nb + 1) b)])).
+  { apply keys_lt_app; [eapply keys_lt_weaken; [exact K2|lia]|]. repeat constructor; cbn [fst]; lia. }
+  destruct k as [|k].
+  - (* no application message missing: the gap fill over the Logons only *)
+    unfold frames_pd. cbn [gen app Nat.add]. change (Z.of_nat 0) with 0 in *. replace (b + 0) with b in * by lia.
+    rewrite drain_S. unfold pending at 1. nopen. unfold do_deliver. nopen.
+    rewrite (recv_gf_awaiting_gen b (L + 1) L 0 (nb + 2) (nb + 1) (b - 1));
+      [ | exact K4 | exact KB | unfold L; lia | unfold L; lia | unfold I64MAX in *; lia
+        | unfold I64MAX in *; lia | lia | lia ].
+    nopen. rewrite drain_quiet; [ | reflexivity | reflexivity ].
+    unfold net_recx_done. fold L. unfold nums, texts. cbn [gen map]. rewrite ?app_nil_r, <- ?app_assoc. cbn [app].
+    repeat (first [ reflexivity | lia | f_equal ]).
+  - (* the k + 1 retransmissions, then the gap fill *)
+    rewrite (drain_pd k (S f) b i L 0 (nb + 2) (nb + 1) (b - 1));
+      [ | exact K4 | lia | unfold L; lia | unfold I64MAX in *; lia | lia ].
+    rewrite drain_S. unfold pending at 1. nopen. unfold do_deliver. nopen.
+    rewrite (recv_gf_awaiting_gen (b + Z.of_nat (S k)) (L + 1) L NOW0 (nb + 2) (nb + 1) (b - 1 + Z.of_nat (S k)));
+      [ | apply Forall_app; split; [eapply all_lt_weaken; [exact K4|lia] | apply all_lt_nums; lia]
+        | exact KB | unfold L; lia | unfold L; lia | unfold I64MAX in *; lia
+        | unfold I64MAX in *; lia | lia | lia ].
+    nopen. rewrite drain_quiet; [ | reflexivity | reflexivity ].
+    unfold net_recx_done. fold L. rewrite ?app_nil_r, <- ?app_assoc. cbn [app].
+    repeat (first [ reflexivity | lia | f_equal ]).
+Qed.
+
+Lemma rec_stepx : forall na nb b i k m pre rowsB insA insB G SA id GA SB j,
+  na = nb -> (0 < k + m)%nat -> (j <= k)%nat ->
+  keys_lt b pre -> keys_lt nb rowsB -> all_lt na insA -> all_lt b insB ->
+  0 < na -> 0 < b -> b + Z.of_nat k + Z.of_nat m + 3 <= I64MAX -> nb + 3 <= I64MAX ->
+  run (net_recx na nb b i k m pre rowsB insA insB G SA id GA SB) (round j)
+  = net_recx (na + 2) (nb + 2) (b + Z.of_nat j) (i + Z.of_nat j) (k - j) (S m)
+            (pre ++ rows_app b i j) (rowsB ++ [(nb, wlogon cfgB nb); (nb + 1, wrr cfgB (nb + 1) b)])
+            (insA ++ [na; na + 1]) (insB ++ nums b j) (G ++ map Some (texts i j)) SA id GA SB.
+Proof.
+  intros * -> KM J K1 K2 K3 K4 B1 B2 B3 B4. unfold net_recx, round.
+  set (L := b + Z.of_nat k + Z.of_nat m) in *.
+  rewrite run_app. cbn [run fold_left]. unfold step.
+  (* B: Logon numbered above the expected number *)
+  unfold do_deliver at 3. nopen.
+  rewrite (recv_logon_high b nb (nb - 1) (b - 1) rowsB insB L);
+    [ | exact K2 | unfold L; lia | unfold I64MAX in *; lia | unfold I64MAX in *; lia | lia ].
+  nopen.
+  (* A: Logon reply *)
+  nopen.
+  rewrite (recv_logon_reply nb (L + 1) L (nb - 1) _ insA);
+    [ | exact K3 | unfold I64MAX in *; lia | lia ].
+  nopen.
+  (* A: ResendRequest *)
+  nopen.
+  rewrite (recv_resend_request_gen (nb + 1) NOW0 nb pre (insA ++ [nb]) b i k m L);
+    [ | apply Forall_app; split; [eapply all_lt_weaken; [exact K3|lia] | repeat constructor; lia]
+      | exact K1 | unfold I64MAX in *; lia | lia | reflexivity | unfold I64MAX in *; lia | lia ].
+  nopen. refold. rewrite wires_app, apps_app, wires_map_wire, apps_map_wire. nopen.
+  (* B: j of the k retransmissions *)
+  replace k with (j + (k - j))%nat at 3 by lia.
+  unfold frames_pd at 1. rewrite gen_app. fold (frames_pd b i j). rewrite <- (app_assoc (frames_pd b i j)).
+  rewrite run_app.
+  rewrite (delivers_pd j b i L 0 (nb + 2) (nb + 1) (b - 1));
+    [ | exact K4 | lia | unfold L; lia | unfold I64MAX in *; lia | lia ].
+  (* the link breaks, both ends disconnect, new transport, Logon L + 1 *)
+  cbn [run fold_left]. unfold step, do_break. nopen.
+  rewrite disconnect_active, disconnect_conn by lia. nopen.
+  unfold do_reconnect. nopen.
+  change (set_wr true (set_st ST_NCE (W 3 1 (nb + 1 + 1) (L + 1) 0 0 false L (nb + 1)
+            (pre ++ rows_app b i k ++ logons (b + Z.of_nat k) (S m)) ((insA ++ [nb]) ++ [nb + 1]))))
+    with (W 6 1 (nb + 1 + 1) (L + 1) 0 0 true L (nb + 1)
+            (pre ++ rows_app b i k ++ logons (b + Z.of_nat k) (S m)) ((insA ++ [nb]) ++ [nb + 1])).
+  change (set_wr true (set_st ST_NCE (W 3 2 (b + Z.of_nat j) (nb + 2) 0 0 false (nb + 1) (b - 1 + Z.of_nat j)
+            (rowsB ++ [(nb, wlogon cfgB nb); (nb + 1, wrr cfgB (nb + 1) b)]) (insB ++ nums b j))))
+    with (W 6 2 (b + Z.of_nat j) (nb + 2) 0 0 true (nb + 1) (b - 1 + Z.of_nat j)
+            (rowsB ++ [(nb, wlogon cfgB nb); (nb + 1, wrr cfgB (nb + 1) b)]) (insB ++ nums b j)).
+  replace L with (L + 1 - 1) at 2 4 6 by lia.
+  rewrite send_logon_step; [ | | unfold I64MAX in *; lia ].
+  2:{ repeat apply keys_lt_app; [eapply keys_lt_weaken; [exact K1|unfold L; lia] | apply keys_lt_gen; unfold L; lia
+                                | apply keys_lt_gen; unfold L; lia ]. }
+  nopen.
+  assert (ER : (pre ++ rows_app b i k ++ logons (b + Z.of_nat k) (S m)) ++ [(L + 1, wlogon cfgA (L + 1))]
+               = (pre ++ rows_app b i j) ++ rows_app (b + Z.of_nat j) (i + Z.of_nat j) (k - j)
+                 ++ logons (b + Z.of_nat j + Z.of_nat (k - j)) (S (S m))).
+  { replace (b + Z.of_nat j + Z.of_nat (k - j)) with (b + Z.of_nat k) by lia.
+    replace (rows_app b i k) with (rows_app b i j ++ rows_app (b + Z.of_nat j) (i + Z.of_nat j) (k - j)).
+    2:{ unfold rows_app. rewrite <- gen_app. replace (j + (k - j))%nat with k by lia. reflexivity. }
+    unfold logons at 2. rewrite (gen_snoc _ _ (S m)). fold (logons (b + Z.of_nat k) (S m)).
+    replace (b + Z.of_nat k + Z.of_nat (S m)) with (L + 1) by (unfold L; lia).
+    rewrite <- !app_assoc. reflexivity. }
+  rewrite ER. rewrite ?app_nil_r, <- ?app_assoc. cbn [app].
+  replace (b + Z.of_nat j + Z.of_nat (k - j) + Z.of_nat (S m)) with (L + 1) by (unfold L; lia).
+  repeat (first [ reflexivity | lia | f_equal ]).
+Qed.
+
+Definition settled_okx (s : net) (G : list (option str)) (SA : list str) (GA : list (option str)) (SB : list str) : Prop :=
+  quiescent s = true
+  /\ st (wa s) = ST_ACTIVE /\ st (wb s) = ST_ACTIVE
+  /\ nin (wa s) = nout (wb s) /\ nin (wb s) = nout (wa s)
+  /\ gb s = G /\ sa s = SA /\ ga s = GA /\ sb s = SB.
+
+Lemma breaks_genx : forall js na nb b i k m pre rowsB insA insB G SA id GA SB f,
+  na = nb -> (0 < k + m)%nat -> fits k js ->
+  keys_lt b pre -> keys_lt nb rowsB -> all_lt na insA -> all_lt b insB ->
+  0 < na -> 0 < b ->
+  b + Z.of_nat k + Z.of_nat m + 2 + Z.of_nat (length js) <= I64MAX ->
+  nb + 3 + 2 * Z.of_nat (length js) <= I64MAX ->
+  settled_okx (drain (3 + (k + S f)) (run (net_recx na nb b i k m pre rowsB insA insB G SA id GA SB) (rounds js)))
+             (G ++ map Some (texts i k)) SA GA SB.
+Proof.
+  induction js as [|j r IH]; intros * E KM F K1 K2 K3 K4 B1 B2 B3 B4.
+  - cbn [rounds flat_map run fold_left length] in *.
+    rewrite recovery_genx; try assumption; [ | lia | lia ].
+    unfold settled_okx, net_recx_done. cbn [wa wb ab ba ga gb sa sb nid].
+    subst na. repeat split; try reflexivity; try (unfold W; cbn [nin nout]; lia).
+  - destruct F as [J F]. cbn [rounds flat_map]. fold (rounds r). rewrite run_app.
+    cbn [length] in B3, B4.
+    rewrite rec_stepx; try assumption; [ | lia | lia ].
+    replace (3 + (k + S f))%nat with (3 + ((k - j) + S (f + j)))%nat by lia.
+    replace (G ++ map Some (texts i k)) with ((G ++ map Some (texts i j)) ++ map Some (texts (i + Z.of_nat j) (k - j))).
+    2:{ rewrite <- app_assoc, <- map_app. f_equal. f_equal. unfold texts. rewrite <- gen_app.
+        replace (j + (k - j))%nat with k by lia. reflexivity. }
+    apply IH; try lia; try assumption.
+    + apply keys_lt_app; [eapply keys_lt_weaken; [exact K1|lia] | apply keys_lt_gen; lia].
+    + apply keys_lt_app; [eapply keys_lt_weaken; [exact K2|lia] | repeat constructor; cbn [fst]; lia].
+    + apply Forall_app; split; [eapply all_lt_weaken; [exact K3|lia] | repeat constructor; lia].
+    + apply Forall_app; split; [eapply all_lt_weaken; [exact K4|lia] | apply all_lt_nums; lia].
+Qed.
+
+Lemma rb_is_recx : forall xa xb ia ib k preA preB insA insB GA GB SA SB id,
+  net_rb xa xb ia ib k 0 preA preB insA insB GA GB SA SB id
+  = net_recx xa xa xb ia k 0 preA preB insA insB GB SA id GA SB.
+Proof.
+  intros. unfold net_rb, net_recx, rows_app_m, logons. cbn [gen]. change (Z.of_nat 0) with 0.
+  rewrite (app_nil_r preB).
+  replace (xa + 0) with xa by lia. replace (xb + Z.of_nat k + 0) with (xb + Z.of_nat k) by lia.
+  reflexivity.
+Qed.
+
+(* Both applications have sent; all of B's m = db messages have reached A, the last k + 1 of A's n = da + k + 1 are in
+   flight at the first break; then any number of further breaks during the retransmission, as in repeated_breaks *)
+Theorem repeated_breaks_B_traffic : forall da k db js fuel,
+  fits (S k) js ->
+  Z.of_nat (da + S k) + 5 + 2 * Z.of_nat (length js) <= I64MAX ->
+  Z.of_nat db + 5 + 2 * Z.of_nat (length js) <= I64MAX ->
+  (S k + 4 <= fuel)%nat ->
+  recovered_both (drain fuel (run net0 (sched_before_both da (S k) db 0 ++ [ABreak; AReconnect] ++ rounds js)))
+                 (da + S k) (db + 0).
+Proof.
+  intros * F B1 B2 Fu.
+  assert (B1' : Z.of_nat (da + S k) + 3 <= I64MAX) by lia.
+  assert (B2' : Z.of_nat (db + 0) + 3 <= I64MAX) by lia.
+  rewrite app_assoc, run_app.
+  replace (sched_before_both da (S k) db 0 ++ [ABreak; AReconnect])
+    with ((sched_before_both da (S k) db 0 ++ [ABreak]) ++ [AReconnect]) by (rewrite <- app_assoc; reflexivity).
+  rewrite run_app, at_break_both by assumption. cbn [run fold_left]. unfold step.
+  rewrite at_reconnect_both by assumption. rewrite rb_is_recx.
+  set (N := Z.of_nat (da + S k)) in *.
+  replace fuel with (3 + (S k + S (fuel - (S k + 4))))%nat by lia.
+  assert (P1 : keys_lt (2 + Z.of_nat da) (LA1 :: rows_app 2 1 da))
+    by (constructor; [unfold LA1; cbn [fst]; lia | apply keys_lt_gen; lia]).
+  assert (P2 : keys_lt (2 + Z.of_nat db) (LB1 :: rows_app_m 2 (1 + N) db))
+    by (constructor; [unfold LB1; cbn [fst]; lia | apply keys_lt_gen; lia]).
+  assert (P3 : all_lt (2 + Z.of_nat db) (1 :: nums 2 db)) by (constructor; [lia | apply all_lt_nums; lia]).
+  assert (P4 : all_lt (2 + Z.of_nat da) (1 :: nums 2 da)) by (constructor; [lia | apply all_lt_nums; lia]).
+  pose proof (breaks_genx js (2 + Z.of_nat db) (2 + Z.of_nat db) (2 + Z.of_nat da) (1 + Z.of_nat da) (S k) 0
+                (LA1 :: rows_app 2 1 da) (LB1 :: rows_app_m 2 (1 + N) db) (1 :: nums 2 db) (1 :: nums 2 da)
+                (map Some (texts 1 da)) (texts 1 (da + S k)) (1 + N + Z.of_nat (db + 0))
+                (map Some (texts (1 + N) db)) (texts (1 + N) (db + 0))
+                (fuel - (S k + 4)) eq_refl ltac:(lia) F P1 P2 P3 P4 ltac:(lia) ltac:(lia)
+                ltac:(unfold N in *; lia) ltac:(lia)) as H.
+  destruct H as [Q [A1 [A2 [N1 [N2 [G1 [S1 [G2 S2]]]]]]]].
+  rewrite <- map_app, <- texts_split in G1.
+  rewrite Nat.add_0_r in *.
+  unfold recovered_both. fold N. repeat split; try assumption.
+  apply holds_intro; try assumption; [rewrite G1, S1; reflexivity | rewrite G2, S2; reflexivity].
+Qed.
+
+Lemma repeated_breaks_B_traffic_instance :
+  let s := drain 20 (run net0 (sched_before_both 1 3 2 0 ++ [ABreak; AReconnect] ++ rounds [1; 0; 1]%nat)) in
+  holds s = true /\ gb s = map Some (texts 1 4) /\ ga s = map Some (texts 5 2)
+  /\ nin (wa s) = nout (wb s) /\ nin (wb s) = nout (wa s).
+Proof. vm_compute. repeat split. Qed.
+
 (* ------------------------------------------------------------------ constants of Net.v = the code's (regenerated every run) *)
 
 Fixpoint assoc_num (k : str) (l : list (str * N)) : option N :=
